@@ -25,8 +25,16 @@ E == Tr[l]
 Minus(m, k) == MkSeq(Len(m), LAMBDA c : MkSeq(Len(m[c]), LAMBDA f : m[c][f] - k[c][f]))
 Abs(x) == IF x < 0 THEN 0 - x ELSE x
 
-\* |x10/10 - num/den| <= 0.05 (the code rounds to one decimal); Open: any value
-Close10(x10, q) == IF q = Open THEN x10 >= 0 ELSE 2 * Abs(x10 * q[2] - 10 * q[1]) <= q[2]
+\* |x10/10 - num/den| <= 0.05 (the code rounds to one decimal); Open: any value.
+\* Written with divisions so that no logged answer can overflow TLC's integers:
+\* x10 in [ceil((20 num - den) / (2 den)), floor((20 num + den) / (2 den))]
+Close10(x10, q) ==
+  IF q = Open THEN x10 >= 0
+  ELSE LET n20 == 20 * q[1]
+           d2 == 2 * q[2]
+       IN /\ x10 >= 0
+          /\ x10 <= (n20 + q[2]) \div d2
+          /\ (n20 <= q[2] \/ x10 >= (n20 - q[2] + d2 - 1) \div d2)
 
 Reject(why) == PrintT(<<"REJECTED", tid, l, why>>)
 
@@ -47,7 +55,8 @@ JudgeCall(e, p) ==
   IF p.mode = "neg" THEN (e.err = "ValueError" \/ Reject("no ValueError for a negative interval"))
   ELSE IF e.err # "" THEN Reject("unexpected exception")
   ELSE \A i \in 1..Len(p.res) :
-         /\ (RowShapeOK(p.fn, e.x[i]) \/ Reject("range / shares do not add up to 100"))
+         /\ (RowShapeOK(p.fn, e.x[i])
+               \/ Reject(<<"range / shares do not add up to 100", i, p.res[i].tot, p.res[i].d>>))
          /\ (p.fresh \/ RowMatches(p.fn, e.x[i], p.res[i])
                \/ Reject(<<"value", i, p.res[i].tot, p.res[i].d>>))
 
